@@ -91,6 +91,10 @@ def cache_key(qn, tier):
                     h.update(d.encode() + b'/' + n.encode() + b'\0')
                     with open(os.path.join(d, n), 'rb') as f:
                         h.update(f.read())
+        kf = os.path.join(ROOT, 'known_findings.json')      # open findings decide which callee clauses are assumable
+        if os.path.exists(kf):
+            with open(kf, 'rb') as f:
+                h.update(f.read())
         _CACHE_KEY['base'] = h.hexdigest()
     return hashlib.sha256(('%s|%s|%s' % (_CACHE_KEY['base'], qn, tier)).encode()).hexdigest()
 
@@ -288,7 +292,7 @@ def cmd_prove(a):
     obligations, refuted, unknown, known_hits = [], [], [], []
     bounded_obs = []
     bounded_out_paths = 0
-    modular_used = set()
+    modular_used, unproved_skipped = set(), set()
     undecided_fns, vacuous, bad_canary = [], [], []
     by_backend, solver_ms_total, solver_ms_max, paths = {}, 0.0, 0.0, 0
     fns = []
@@ -299,6 +303,7 @@ def cmd_prove(a):
         paths += rep.paths
         bounded_out_paths += rep.bounded_out
         modular_used |= rep.modular_calls
+        unproved_skipped |= getattr(rep, 'unproved_skipped', set())
         inlined |= {x for x in rep.inlined if x != qn}
         models |= rep.models_used
         if rep.undecided:
@@ -405,6 +410,7 @@ def cmd_prove(a):
             'undecided_functions': [{'name': qn, 'why': why} for qn, why in undecided_fns],
             'bounded_standins': _bounded_summary(bounded_obs, bounded_out_paths),
             'modular_calls': sorted(modular_used),
+            'callee_clauses_not_assumed_because_of_an_open_finding': sorted(unproved_skipped),
             'tree': tree_id(),
             'report_cache': {'reused_from_an_earlier_check_on_the_identical_tree': sorted(CACHE_STATS['hits']),
                              'computed_in_this_run': sorted(CACHE_STATS['misses'])},
